@@ -923,6 +923,79 @@ def scalars(W, rec):
             rec.violation(f"C16/scalar-delete:{name}", f"{getattr(r, name)!r}", {"scalar": name}, monitor="readback")
 
 
+def views_edited_on_eight_threads(W, rec):
+    """Schedule: eight requests are answered at once, each thread edits the views of its own response (cache-control
+    directives, whole set properties from generators that pause, challenges) - every header is made of that thread's
+    values only.  Re-entrancy: an item whose text is produced while another header is being written."""
+    import sys
+    import threading
+    import time as _time
+
+    Response = W["Response"]
+    old = sys.getswitchinterval()
+    sys.setswitchinterval(1e-5)
+    errs = []
+    try:
+        def work(i):
+            tag = f"t{i}"
+            for n in range(250):
+                r = Response()
+
+                def items():
+                    yield f"{tag}-a"
+                    _time.sleep(0)
+                    yield f"{tag}-b"
+                    yield f"{tag}-c"
+
+                r.vary = items()
+                r.allow = (f"{tag}M{j}" for j in range(3))
+                cc = r.cache_control
+                cc.max_age = 100 + i
+                cc["x-" + tag] = tag
+                cc.public = True
+                r.www_authenticate = W["WWWAuthenticate"]("digest", {"realm": tag, "nonce": tag * 2, "qop": "auth"}) if "WWWAuthenticate" in W else None
+                got = (r.headers.get("Vary"), r.headers.get("Allow"), r.headers.get("Cache-Control"))
+                want = (f"{tag}-a, {tag}-b, {tag}-c", f"{tag}M0, {tag}M1, {tag}M2", None)
+                ccset = set((got[2] or "").split(", "))
+                if got[:2] != want[:2] or ccset != {f"max-age={100 + i}", f"x-{tag}={tag}", "public"} or (r.headers.get("WWW-Authenticate") or tag).count(tag) not in (1, 3):
+                    errs.append((i, n, got, r.headers.get("WWW-Authenticate")))
+                    return
+
+        ths = [threading.Thread(target=work, args=(i,)) for i in range(8)]
+        for t in ths:
+            t.start()
+        for t in ths:
+            t.join()
+    finally:
+        sys.setswitchinterval(old)
+    rec.case()
+    rec.nontrivial(("views-on-eight-threads",))
+    rec.observe("responses_edited_on_eight_threads", 2000)
+    if errs:
+        i, n, got, wa = errs[0]
+        rec.violation("C16/header-made-of-another-responses-values", f"thread {i}, response {n}: Vary {got[0]!r}, Allow {got[1]!r}, Cache-Control {got[2]!r}, WWW-Authenticate {wa!r} - only values tagged t{i} were assigned", {"part": "views-on-eight-threads"}, monitor="coherence+shadow-model")
+        return
+
+    # re-entrancy on one thread: the text of an item is produced by code that itself writes a header
+    class Lazy:
+        def __init__(self, resp):
+            self.resp = resp
+
+        def __str__(self):
+            self.resp.allow = ["INNER1", "INNER2"]
+            return "lazy-item"
+
+    r1, r2 = Response(), Response()
+    rec.case()
+    rec.nontrivial(("views-re-entrant",))
+    try:
+        r1.vary = ["first", Lazy(r2), "last"]
+    except TypeError:
+        return  # (items that are no text are refused: fine)
+    if (r1.headers.get("Vary"), r2.headers.get("Allow")) != ("first, lazy-item, last", "INNER1, INNER2"):
+        rec.violation("C16/header-made-of-another-responses-values", f"an item whose str() assigns another response's Allow: Vary {r1.headers.get('Vary')!r}, the other response's Allow {r2.headers.get('Allow')!r}", {"part": "views-re-entrant"}, monitor="coherence+shadow-model")
+
+
 def world():
     from werkzeug import datastructures as DS
     from werkzeug.wrappers import Response
@@ -982,7 +1055,11 @@ def run(shard, rec, rng):
             run_one(W, rec, view, seq, rng.randrange(1 << 30))
         if len(rec.samples) < 6:
             rec.sample({"view": view, "ops": [rng.choice(ops) for _ in range(4)]})
-    if idx == 0:
+    if idx == 3:
+        with rec.guard({"part": "views-on-eight-threads"}, "C16"):
+            views_edited_on_eight_threads(W, rec)
+    if idx in (0, 1, 2):
+        # (the runner gives shards 1 and 2 other process time zones: a naive datetime means UTC whatever the zone)
         scalars(W, rec)
         detached_views(W, rec)
     else:
